@@ -1,5 +1,6 @@
 import FCA.Props.C03Gen
 import FCA.Props.C05
+import FCA.Props.C02Gen
 /-
 C05 over the regenerated source: the covers theorem restated for the loop body that the current `lindig.py` has.
 -/
@@ -23,5 +24,12 @@ theorem C05_generated_neighbors_covers (K : Ctx) (h : K.WF) (A : Nat) (hA : Boun
   rw [e]
   exact C05_context_neighbors K h A hA
 
+/-- `Context.neighbors(objects)` of the current source (labels resolved as objects, closed by `double`, then `lindig.neighbors`)
+is the model's `contextNeighbors`, whose output `C05_context_neighbors` characterises as the upper covers -/
+theorem C05_generated_context_neighbors (K : Ctx) (A : Nat) :
+    (C02_deriveOfCfg K Generated.neighbors_cfg).map (fun cl => neighbors K (cl A)) = some (contextNeighbors K A) :=
+  C02_generated_context_neighbors K A
+
 end FCA
 #print axioms FCA.C05_generated_neighbors_covers
+#print axioms FCA.C05_generated_context_neighbors
